@@ -98,3 +98,11 @@ Theorem root_response_complete :
   0 < n -> 0 < ord -> 0 <= e -> 0 <= m -> powm n x ord = 1 mod n -> (e * m) mod ord = 1 mod ord ->
   powm n (powm n x m) e = x mod n.
 Proof. exact root_response_complete_lem. Qed.
+
+(* No degenerate commitments (found and repaired: with the Pedersen commitment for q equal to 0 modulo the group prime the
+   relations exposing a non-safe factor held vacuously and a forged proof was accepted): every accepted proof's recomputed
+   group elements are non-zero modulo the group prime. *)
+Theorem vk_commitments_nonzero :
+  forall n bases f1 f2 f3 p, vk_verify n bases f1 f2 f3 p = Ok true ->
+  exists l, vk_list n bases p = Ok l /\ vk_nonzero n bases p l = Ok true.
+Proof. exact vk_commitments_nonzero_lem. Qed.
